@@ -109,6 +109,7 @@ type nnsOp struct {
 	name   string
 	who    string // owner param / to / admin: U1 U2 P D nil
 	years  int64
+	bad    bool  // add/set: the data is not well-formed for its type, the call must be refused
 	life   int64 // regTLD: lifetime in seconds (ten years unless set)
 	typ    int
 	id     int
@@ -360,6 +361,7 @@ func NewNNSDriver(mode string) *NNSDriver {
 			nnsOp{kind: "add", name: "bb.com", typ: rtTXT, data: "n17", signer: u},
 			nnsOp{kind: "del", name: "bb.com", typ: rtTXT, signer: u},              // empties a list that may be at capacity
 			nnsOp{kind: "add", name: "bb.com", typ: rtTXT, data: "n03", signer: u}, // duplicate of an existing value
+			nnsOp{kind: "add", name: "aa.com", typ: rtTXT, data: "n03", signer: u}, // a value its alias bb.com holds too: resolve lists both
 			nnsOp{kind: "add", name: "zz.com", typ: rtTXT, data: "t1", signer: u},  // unregistered second-level name
 			nnsOp{kind: "add", name: "aa.com", typ: rtTXT, data: "t1", signer: s("S")},
 			nnsOp{kind: "add", name: "aa.com", typ: 2, data: "t1", signer: u}, // unsupported record type
@@ -397,6 +399,7 @@ func NewNNSDriver(mode string) *NNSDriver {
 		add(nnsOp{kind: "add", name: "n1.com", typ: rtCNAME, data: "n0.com", signer: u},
 			nnsOp{kind: "add", name: "n4.com", typ: rtCNAME, data: "n4.com", signer: u},
 			nnsOp{kind: "add", name: "n2.com", typ: rtCNAME, data: "s.n4.com", signer: u}, // into a sub-name kept under n4.com
+			nnsOp{kind: "add", name: "n0.com", typ: rtCNAME, data: "n1.com.", signer: u, bad: true}, // a target in fully qualified form is not a valid name
 			nnsOp{kind: "del", name: "n1.com", typ: rtCNAME, signer: u},
 			nnsOp{kind: "del", name: "n2.com", typ: rtCNAME, signer: u},
 			nnsOp{kind: "add", name: "s.n4.com", typ: rtTXT, data: "ts", signer: u})
@@ -830,7 +833,7 @@ func (d *NNSDriver) Step(x *Exec, n *Node, i int) StepResult {
 				delete(nm.recs, k)
 				nm.soa[tok] = m.now
 			}
-		case !supported:
+		case !supported || o.bad:
 			expHalt = false
 		case o.kind == "add":
 			dup := false
